@@ -32,9 +32,10 @@ pub enum Prim {
     ChecksumCanonical,
     ChecksumNonCanonical,
     ChecksumMalformed,
+    ChecksumEmpty,
 }
 
-pub const PRIMS: [Prim; 16] = [
+pub const PRIMS: [Prim; 17] = [
     Prim::Nop,
     Prim::ClearName,
     Prim::SetName,
@@ -51,6 +52,7 @@ pub const PRIMS: [Prim; 16] = [
     Prim::ChecksumCanonical,
     Prim::ChecksumNonCanonical,
     Prim::ChecksumMalformed,
+    Prim::ChecksumEmpty,
 ];
 
 #[derive(Clone, Debug, Default, PartialEq, Eq, Hash, PartialOrd, Ord)]
@@ -137,6 +139,9 @@ fn apply_real(p: Prim, parts: &mut PurlParts) {
         Prim::ChecksumMalformed => {
             let _ = parts.qualifiers.insert("checksum", "zz");
         },
+        Prim::ChecksumEmpty => {
+            let _ = parts.qualifiers.insert("Checksum", "");
+        },
     }
 }
 
@@ -184,6 +189,9 @@ fn apply_ref(p: Prim, r: &mut RefParts) {
         },
         Prim::ChecksumMalformed => {
             r.quals.insert("checksum".into(), "zz".into());
+        },
+        Prim::ChecksumEmpty => {
+            r.quals.insert("checksum".into(), "".into());
         },
     }
 }
@@ -241,7 +249,7 @@ pub fn programs(tier: Tier) -> Vec<Program> {
             if a == Prim::Nop || b == Prim::Nop {
                 continue;
             }
-            let key = |p: Prim| matches!(p, Prim::ClearName | Prim::InsertEmptyQual | Prim::ChecksumNonCanonical | Prim::ChecksumMalformed | Prim::EmptyFirstValue);
+            let key = |p: Prim| matches!(p, Prim::ClearName | Prim::InsertEmptyQual | Prim::ChecksumNonCanonical | Prim::ChecksumMalformed | Prim::ChecksumEmpty | Prim::EmptyFirstValue);
             if two || (key(a) && key(b)) {
                 hooks.push(vec![a, b]);
             }
